@@ -611,6 +611,23 @@ def descendants(p, rng):
     return out
 
 
+def unbounded_family(rng):
+    """repetitions of bodies built from tokens that are unbounded in breadth and text, nested and alternated: the family in which the 13th
+    defect lived (a depth term with gaps multiplied by an unbounded range)"""
+    atoms = ['*/', '/*', '*/*/', '**/', '*/**/', '*', 'a/', '?/', '*/*/*/']
+
+    def body(d):
+        r = rng.random()
+        if d == 0 or r < 0.35:
+            return rng.choice(atoms)
+        if r < 0.6:
+            return body(d - 1) + body(d - 1)
+        if r < 0.8:
+            return '{' + body(d - 1) + ',' + body(d - 1) + '}'
+        return '<' + body(d - 1) + rng.choice(G.BOUNDS) + '>'
+    return rng.choice(['', 'a/', '/', '**/']) + '<' + body(2) + rng.choice(G.BOUNDS) + '>' + rng.choice(['*', '', '**', '/**', '*/**/*', 'a'])
+
+
 def c09(res, rng, tier, replay=None):
     if replay:
         return replay_generic(replay)
@@ -626,6 +643,7 @@ def c09(res, rng, tier, replay=None):
              '<{%s}/:1,>*', '<<%s:1>/:1,>*', '*<<?*:2>/*:1,>', '<{%s}/*:1,>', '<<?>/:1,>*', '<<%s>/>*', '<<?:1,3>/>*', '<{%s,*}/:1,>*', '<{*}/%B>*', '<{%s}/%B>*', '<<??>/>*', '<<?*>/>*', '<<?*?>/>*', '/**/<?/?:>', '<<?>/>', '<<*?>/%B>*', '<<{?,??}>/>*', '**/<?:2,>', '**/<?:1,>', '**/<?>', '**/<?%B>', '<<?:2,>/>*', '**/<?*:2,>', '**/<*:2,>',
              # bodies whose depth term has gaps: an alternation of depths, a bounded variant range (repaired by 83c38c1), and their contiguous relatives
              '<{*/*/,*/*/*/*/}%B>*', '<*/*/*/<*/:0,1>%B>*', '<{*/*/,*/*/*/}%B>*', '<*/*/<*/%B>%B>*', '<{*,*/*/}%B>', '<{*/,*/*/}%B>*', '<{*/*/,%s/**/}%B>*', '<*/<*/*/:0,1>%B>*', '<{*/,**/%s/}%B>*']
+    exprs += [unbounded_family(rng) for _ in range(n // 8)]
     while len(exprs) < n:
         t = rng.choice(tails)
         while '%B' in t:
